@@ -64,7 +64,7 @@ func (g *immGen) op(src string) []*Node {
 	d := g.nm()
 	s := Id(src)
 	var st []*Node
-	switch g.r.Intn(16) {
+	switch g.r.Intn(21) {
 	case 0:
 		st = []*Node{Def(d, Slice(s, Int(int64(g.r.Intn(2))), nil))}
 	case 1:
@@ -97,6 +97,16 @@ func (g *immGen) op(src string) []*Node {
 		st = []*Node{Def(d, Call(Fn([]string{"p"}, true, Ret(Id("p"))), s))} // variadic roll-up
 	case 15:
 		st = []*Node{Def(d, Cond(Bool(true), s, Int(0)))}
+	case 16:
+		st = []*Node{Def(d, CallSpread(Fn([]string{"p"}, true, Ret(Id("p"))), s))} // spread into a variadic parameter: the callee's array is its own
+	case 17:
+		st = []*Node{Def(d, CallSpread(Fn([]string{"q", "p"}, true, Ret(Id("p"))), Int(0), s))}
+	case 18:
+		st = []*Node{Def(d, CallSpread(Fn([]string{"p"}, true, Set("p", []*Node{Int(0)}, "=", Int(77)), Ret(Id("p"))), s))} // the callee writes its varargs
+	case 19:
+		st = []*Node{Def(d, Bin("+", s, Imm(Arr())))} // concatenation with an empty operand must not hand out the operand's storage
+	case 20:
+		st = []*Node{Def(d, Bin("+", Imm(Arr()), s))}
 	}
 	g.vars = append(g.vars, d)
 	return st
